@@ -350,6 +350,20 @@ func (r *TypeSettingsRegistry) GetByValue(objValue reflect.Value, optTS ...TypeS
 		// resolve indirections
 		switch objValue.Kind() {
 		case reflect.Ptr, reflect.Interface:
+			if objValue.IsNil() {
+				// nothing to dereference (e.g. a freshly created map element of pointer or interface type):
+				// resolve a nil pointer by its static type, a nil interface has no further type information.
+				if objValue.Kind() == reflect.Ptr {
+					objValue = reflect.Zero(objValue.Type().Elem())
+
+					continue
+				}
+				if len(optTS) > 0 {
+					return optTS[0]
+				}
+
+				return TypeSettings{}
+			}
 			objValue = objValue.Elem()
 
 		default:
